@@ -33,7 +33,7 @@ type OnceH struct {
 	Factories  int        `json:"factories"`
 }
 
-const ruleOnce = "tier 1 (at-most-once): a never-started agent with its cache, the real BatchProcessor with 1-3 counting task factories and a recording tasks manager; rapid draws 1-6 distinct batches and a delivery list in which each batch arrives 1-6 times 'from' drawn peers with drawn TTLs, in a drawn order, interleaved with the other batches. Oracle: tasks created per distinct batch per factory <= 1, and every forwarded copy (re-published on the outgoing bus) belongs to a first delivery. Non-trivial: some batch is delivered >=2 times. distinct = FNV-64 of the case."
+const ruleOnce = "tier 1 (at-most-once): a never-started agent with its cache, the real BatchProcessor with 1-3 counting task factories and a recording tasks manager; rapid draws 1-6 distinct batches of 1-60 signed snapshots of realistic size (32-byte digests, 64-byte signatures) and a delivery list in which each batch arrives 1-6 times 'from' drawn peers with drawn TTLs, in a drawn order, interleaved with the other batches. Oracle: tasks created per distinct batch per factory <= 1, and every forwarded copy (re-published on the outgoing bus) belongs to a first delivery. Non-trivial: some batch is delivered >=2 times. distinct = FNV-64 of the case."
 
 type countingFactory struct {
 	mu    *sync.Mutex
@@ -77,7 +77,7 @@ func TestAtMostOnce(t *testing.T) {
 		next := uint64(0)
 		for i, n := 0, rapid.IntRange(1, 6).Draw(rt, "nbatches"); i < n; i++ {
 			var vs []uint64
-			for j, k := 0, rapid.IntRange(1, 5).Draw(rt, "size"); j < k; j++ {
+			for j, k := 0, rapid.OneOf(rapid.IntRange(1, 5), rapid.IntRange(1, 60)).Draw(rt, "size"); j < k; j++ {
 				vs = append(vs, next)
 				next++
 			}
@@ -143,7 +143,15 @@ func execOnce(h OnceH, rec *pbt.Rec) error {
 		mult[d.Batch]++
 		b := &protocol.BatchSnapshots{}
 		for _, v := range h.Batches[d.Batch] {
-			b.Snapshots = append(b.Snapshots, &protocol.SignedSnapshot{Snapshot: &protocol.Snapshot{Version: v, EventDigest: []byte{byte(v)}, HistoryDigest: []byte{1}, HyperDigest: []byte{2}}, Signature: []byte{byte(v), 9}})
+			// realistic sizes: 32-byte digests, 64-byte signatures (a signed snapshot is ~230 bytes on the wire)
+			dg := func(tag byte) []byte {
+				o := make([]byte, 32)
+				for i := range o {
+					o[i] = tag + byte(v)*3 + byte(i)
+				}
+				return o
+			}
+			b.Snapshots = append(b.Snapshots, &protocol.SignedSnapshot{Snapshot: &protocol.Snapshot{Version: v, EventDigest: dg(1), HistoryDigest: dg(2), HyperDigest: dg(3)}, Signature: append(dg(4), dg(5)...)})
 		}
 		payload, _ := b.Encode()
 		agent.In.Publish(&gossip.Message{Kind: gossip.BatchMessageType, TTL: d.TTL, Payload: payload, From: gossip.NewPeer(d.From, "127.0.0.1", 1, "server")})
